@@ -134,6 +134,8 @@ pub fn representatives() -> Vec<Val> {
         Val::List(vec![Val::pair(sym("ka"), Val::Int(1)), Val::pair(sym("kb"), Val::List(vec![Val::Int(2)]))]),
         Val::Expr(0),
         Val::External(1),
+        // a value of the host's own type
+        Val::Custom,
     ]
 }
 
